@@ -97,6 +97,7 @@ const std::string *strOwned(int n);
 const std::string *strLib();
 const std::string *strFinal(int n);
 int strIn(const std::string &s);
+int strCountChar(const std::string &text, char c);
 void strOut(std::string &s, int n);
 void strInout(std::string &s);
 int strPtrIn(const std::string *s);
@@ -126,6 +127,7 @@ void arrGrabRef(int *&out, int n);
 int arrSum(const int *arr, int n);
 int arrSumD(const double *arr, int n);
 void arrFillOut(int n, double *out);
+void arrSquares(int n, int *out);
 void arrWeights(int *values, int nvalues, const int *weights, int nweights);
 void charGrow(char *s);
 int charArrLen(char **names, int n);
